@@ -336,8 +336,6 @@ theorem curve_untranslated_pinned :
       [("impl Circle", ["distances"]),
        ("impl Transform for Circle", ["translate_mut"]),
        ("impl Transform for Ellipse", ["translate_mut"]),
-       ("impl Iterator for EllipsePoints", ["next"]),
-       ("impl Iterator for EllipseScanlines", ["next"]),
        ("impl Scanline", ["bresenham_intersection", "draw", "extend", "to_rectangle", "touches", "try_extend",
          "try_take"])] := by decide
 
